@@ -764,7 +764,9 @@ for _r in ('R1-1', 'R1-2', 'R1-3', 'R1-4', 'R2-1', 'R2-2', 'R2-3', 'R2-4', 'R3-1
            'R18-1', 'R18-2', 'R18-3', 'R18-4', 'R19-1', 'R19-2', 'R19-3', 'R19-4', 'R20-1', 'R20-2', 'R20-3', 'R20-4',
            'R21-1', 'R21-2', 'R21-3', 'R21-4',
            'R22-1', 'R22-2', 'R22-3', 'R22-4', 'R23-1', 'R23-2', 'R23-3', 'R23-4', 'R24-1', 'R24-2', 'R24-3', 'R24-4',
-           'R25-1', 'R25-2', 'R25-3', 'R25-4'):
+           'R25-1', 'R25-2', 'R25-3', 'R25-4',
+           'R26-1', 'R26-2', 'R26-3', 'R26-4', 'R27-1', 'R27-2', 'R27-3', 'R27-4', 'R28-1', 'R28-2', 'R28-3', 'R28-4',
+           'R29-1', 'R29-2', 'R29-3', 'R29-4'):
     CORPUS.append({'id': 'S/' + _r + '-silent', 'props': ALL_PROPS, 'rule': None, 'expect': 'silent', 'edits': [],
                    'patch': 'seeded_benign/%s/patch.diff' % _r, 'tolerate_rekeyed': True})
 
